@@ -65,6 +65,27 @@ def decide(prop, tier, seed, replay=None):
     return 2
 
 
+def determinism_L(seed):
+    """same request stream driven in two separately started processes (different ASLR/hash seeds): answers must be byte-identical"""
+    outs = []
+    for k in (0, 1):
+        d = os.path.join(WORK, f"det{k}")
+        rc, out, err = sh([harness_bin("chan_l"), "random", str(seed * 31 + 5), "3000", d], timeout=600)
+        outs.append(d)
+    a = open(os.path.join(outs[0], "impl.txt")).read().split("\n")
+    b = open(os.path.join(outs[1], "impl.txt")).read().split("\n")
+    req = open(os.path.join(outs[0], "req.txt")).read().split("\n")
+    res = {"differs": False, "lines": len(a), "detail": "", "requests": []}
+    if a != b:
+        res["differs"] = True
+        k = next(i for i in range(min(len(a), len(b))) if a[i] != b[i]) if len(a) == len(b) or True else 0
+        start = max(i for i in range(k + 1) if req[i].startswith("reset"))
+        end = next((i for i in range(k + 1, len(req)) if req[i].startswith("reset")), len(req))
+        res["detail"] = f"{a[k][:200]} vs {b[k][:200]}"
+        res["requests"] = req[start:end]
+    return res
+
+
 def fmt_history(h):
     return "\n".join(h["requests"])
 
@@ -86,6 +107,11 @@ def decide_L(prop, tier, seed, t0, replay):
         info = chan_l.run(seed, tier)
     an = chan_l.analyse(info["dirs"], prop)
     oracle = [o for o in an["oracle"] if o["property"] == prop]
+    det = None
+    if prop == "C19" and not replay:
+        det = determinism_L(seed)
+        if det["differs"]:
+            oracle.append({"property": "C19", "message": "two separately started processes produced different answers for the same history: " + det["detail"], "requests": det["requests"]})
     proof_ok = not pr["problems"]
     tie_ok = an.get("n_disagree", 0) == 0 and not info["errors"]
     violations = 0
@@ -143,6 +169,8 @@ def decide_L(prop, tier, seed, t0, replay):
         "input_distribution": an["stats"], "channel_cached": info.get("cached", False), "channel_computed_at": info.get("computed_at"),
         "exhaustive": False, "exhaustive_subspace": info.get("exhaustive_mode"),
     }
+    if det is not None:
+        cov["two_process_lines_compared"] = det["lines"]
     write_evidence(prop, tier, seed, cov, ["layouts end below 2^63 (usize overflow not modelled beyond the usize::MAX sentinel)",
                                            "alignments are positive"], time.time() - t0, violations)
     for l in lines:
